@@ -38,6 +38,11 @@ Representation notes (each is behaviour preserving, and is what the corresponden
   ArgumentError, equality join of the selected class with itself → InvalidRequestError at execution) are `Fail.escape`
   (defect F-C07-3).  Their relative order with `EQLTranslationError`s of *other* atoms of the same query is not modelled
   (the harness never mixes them; the self-join is only generated among hop-free atoms).
+* String columns hold the RANK of the string in a code-point sorted table (equality, order and membership are preserved by
+  the ranking); the substring tests (`Expr.substr`) carry that table (`StrTab`) to decode ranks: `contains("lit", attr)` and
+  `contains(attr, attr)` and (since fix 20e7107) `contains(attr, "lit")` are `instr(c, i) > 0` (exact); before the fix the
+  last one was `attr LIKE '%' || lit || '%'` with SQLite's LIKE (`sqlLike`: ASCII case-insensitive, `%`/`_` wildcards, no
+  ESCAPE) — defect F-C07-5, repaired.
 * `evalMem` quantifies the non-selected variables existentially over their whole domains; the engine binds them lazily,
   which is the same set of answers as long as every variable's domain is non-empty (the harness guarantees it).
 -/
@@ -161,6 +166,15 @@ inductive Operand where
   | other (k : OtherOperand)
   deriving Repr, DecidableEq
 
+/-- table decoding the ranks of string values/literals (strings as character lists; rank k ↦ entry k-1) -/
+abbrev StrTab := List (List Char)
+
+/-- operand of a substring test: an attribute chain (a string column) or a string literal, given by its rank -/
+inductive SOperand where
+  | chain (c : Chain)
+  | lit (rank : Nat)
+  deriving Repr, DecidableEq
+
 inductive Expr where
   | and (l r : Expr)
   | or (l r : Expr)
@@ -169,6 +183,9 @@ inductive Expr where
   | isIn (item : Operand) (vs : List (Option Int))
   /-- a bare attribute used as a condition (truthiness) -/
   | attr (c : Chain)
+  /-- substring test `contains(container, item)` = `in_(item, container)` = `Comparator(container, item,
+  operator.contains)` on strings (`item in container`); `tab` decodes the string ranks occurring in it -/
+  | substr (tab : StrTab) (container item : SOperand)
   -- constructors outside the dispatch of `translate_query`
   | not (e : Expr)
   | exist (v : Nat) (e : Expr)
@@ -208,12 +225,21 @@ inductive SqlOperand where
   | lit (v : Option Int)
   deriving Repr, DecidableEq
 
+inductive SqlSOperand where
+  | col (c : ColRef)
+  | lit (rank : Nat)
+  deriving Repr, DecidableEq
+
 inductive SqlCond where
   | and (l r : SqlCond)
   | or (l r : SqlCond)
   | cmp (op : Cmp) (l r : SqlOperand)
   | inList (c : ColRef) (vs : List (Option Int))
   | truthy (c : ColRef)
+  /-- `instr(container, item) > 0` (string literal / column contains column) -/
+  | instr (tab : StrTab) (container item : SqlSOperand)
+  /-- `col LIKE '%' || :lit || '%'` (`column.contains("lit")`, no autoescape) -/
+  | like (tab : StrTab) (c : ColRef) (lit : Nat)
   deriving Repr, DecidableEq
 
 /-- `select(anchor).join(target, onclause = target.targetRel_id == anchor.anchorRel_id)` -/
@@ -227,6 +253,7 @@ inductive Flag where
   | byClass          -- a chain on a variable other than the selected one was resolved by class   (F-C07-1)
   | eqJoinUnderOr    -- an attribute-equality JOIN was emitted for an atom below an `or_`           (F-C07-4)
   | eqJoinSkipped    -- a second attribute-equality join to an already joined class was dropped     (F-C07-4)
+  | likeSubstring    -- `contains(column, "literal")` was rendered with LIKE                         (F-C07-5)
   deriving Repr, DecidableEq
 
 structure St where
@@ -404,6 +431,24 @@ def tr (S : Schema) (vars : List Cls) (underOr : Bool) : Expr → St → Except 
     match trChain S vars c st with
     | .error f => .error f
     | .ok (col, st1) => .ok (some (.truthy col), st1)
+  -- `OperatorMapper.map_contains_operator` on strings
+  | .substr tab (.lit k) (.chain c), st =>            -- `isinstance(left, str)`, right a column: instr(literal, col) > 0
+    match trChain S vars c st with
+    | .error f => .error f
+    | .ok (col, st1) => .ok (some (.instr tab (.lit k) (.col col)), st1)
+  | .substr tab (.chain c) (.lit k), st =>            -- left a column, `isinstance(right, str)`: instr(col, literal) > 0
+    -- (before fix 20e7107 this branch was `left.contains(right)`, i.e. `.like tab col k` + flag `.likeSubstring`: F-C07-5)
+    match trChain S vars c st with
+    | .error f => .error f
+    | .ok (col, st1) => .ok (some (.instr tab (.col col) (.lit k)), st1)
+  | .substr tab (.chain c) (.chain d), st =>          -- column contains column: instr(left, right) > 0
+    match trChain S vars c st with
+    | .error f => .error f
+    | .ok (a, st1) =>
+      match trChain S vars d st1 with
+      | .error f => .error f
+      | .ok (b, st2) => .ok (some (.instr tab (.col a) (.col b)), st2)
+  | .substr _ (.lit _) (.lit _), _ => .error .outsideModel
   | .not _, _ => .error (.rejected .unsupportedQueryType)
   | .exist _ _, _ => .error (.rejected .unsupportedQueryType)
   | .all _ _, _ => .error (.rejected .unsupportedQueryType)
@@ -468,6 +513,40 @@ def sqlIn (x : Val) (vs : List (Option Int)) : Option Bool :=
     | .num n => if vs.contains (some n) then some true else if vs.contains none then none else some false
     | _ => none
 
+/-! ### strings: exact substring (Python `in`, SQL `instr`) and SQLite's LIKE -/
+
+def isPrefixL : List Char → List Char → Bool
+  | [], _ => true
+  | _ :: _, [] => false
+  | a :: as, b :: bs => a == b && isPrefixL as bs
+
+/-- `p in t` on strings / `instr(t, p) > 0` -/
+def isInfixL (p : List Char) : List Char → Bool
+  | [] => p.isEmpty
+  | c :: r => isPrefixL p (c :: r) || isInfixL p r
+
+/-- ASCII lower-casing (SQLite's LIKE is case-insensitive for ASCII letters only) -/
+def lowerAscii (c : Char) : Char :=
+  if 65 ≤ c.toNat && c.toNat ≤ 90 then Char.ofNat (c.toNat + 32) else c
+
+/-- SQLite `text LIKE pattern` without ESCAPE: `%` any run, `_` any one character, letters case-insensitively.
+Fuelled (fuel ≥ |pattern| + |text| suffices). -/
+def likeAux : Nat → List Char → List Char → Bool
+  | 0, _, _ => false
+  | _ + 1, [], [] => true
+  | _ + 1, [], _ :: _ => false
+  | n + 1, '%' :: p, [] => likeAux n p []
+  | n + 1, '%' :: p, c :: t => likeAux n p (c :: t) || likeAux n ('%' :: p) t
+  | _ + 1, _ :: _, [] => false
+  | n + 1, a :: p, c :: t => (a == '_' || lowerAscii a == lowerAscii c) && likeAux n p t
+
+def sqlLike (text pattern : List Char) : Bool := likeAux (pattern.length + text.length + 1) pattern text
+
+/-- the string a value stands for (string columns hold ranks) -/
+def strOf (tab : StrTab) : Val → Option (List Char)
+  | .num n => if n ≤ 0 then none else tab[n.toNat - 1]?
+  | _ => none
+
 def and3 : Option Bool → Option Bool → Option Bool
   | some false, _ => some false
   | _, some false => some false
@@ -485,6 +564,18 @@ def evalSql (db : DB) (r : Nat) : SqlCond → Option Bool
   | .or a b => or3 (evalSql db r a) (evalSql db r b)
   | .cmp op a b => sqlCmp db r op a b
   | .inList c vs => sqlIn ((colVal db r c.hops c.col).getD .null) vs
+  | .instr tab a b =>
+    let sv : SqlSOperand → Option (List Char) := fun o =>
+      match o with
+      | .col c => strOf tab ((colVal db r c.hops c.col).getD .null)
+      | .lit k => strOf tab (.num k)
+    match sv a, sv b with
+    | some container, some item => some (isInfixL item container)
+    | _, _ => none
+  | .like tab c k =>
+    match strOf tab ((colVal db r c.hops c.col).getD .null), strOf tab (.num k) with
+    | some text, some l => some (sqlLike text (('%' :: l) ++ ['%']))
+    | _, _ => none
   | .truthy c =>
     match (colVal db r c.hops c.col).getD .null with
     | .num n => some (n != 0)
@@ -562,6 +653,14 @@ def evalCond (db : DB) (env : List Nat) : Expr → Option Bool
     | some a => some (vs.any fun v => litVal v == a)
     | none => none
   | .attr c => (chainVal db env c).map pyTruthy
+  | .substr tab container item =>
+    let sv : SOperand → Option (List Char) := fun o =>
+      match o with
+      | .chain c => (chainVal db env c).bind (strOf tab)
+      | .lit k => strOf tab (.num k)
+    match sv container, sv item with
+    | some c, some i => some (isInfixL i c)
+    | _, _ => none
   | _ => none
 
 /-- all assignments of the non-selected variables -/
@@ -635,6 +734,8 @@ def exprChains : Expr → List Chain
     (match l with | .chain c => [c] | _ => []) ++ (match r with | .chain c => [c] | _ => [])
   | .isIn item _ => (match item with | .chain c => [c] | _ => [])
   | .attr c => [c]
+  | .substr _ a b =>
+    (match a with | .chain c => [c] | _ => []) ++ (match b with | .chain c => [c] | _ => [])
   | .not e | .exist _ e | .all _ e => exprChains e
   | _ => []
 
@@ -653,5 +754,8 @@ def trigNull (S : Schema) (q : Query) (db : DB) : Bool :=
 
 /-- F-C07-4: an attribute-equality join below an `or_`, or dropped because its class was already joined -/
 def trigEqJoin (s : SqlQuery) : Bool := s.flags.contains .eqJoinUnderOr || s.flags.contains .eqJoinSkipped
+
+/-- F-C07-5: `contains(column, "literal")` rendered with LIKE (case-insensitive, `%`/`_` of the literal are wildcards) -/
+def trigLike (s : SqlQuery) : Bool := s.flags.contains .likeSubstring
 
 end KrroodVerif.SqlTr
